@@ -175,3 +175,43 @@ Fixpoint crun (s : cstate) (ops : list cop) : cstate * list cout :=
   | [] => (s, [])
   | o :: r => let '(s1, out) := cstep s o in let '(s2, outs) := crun s1 r in (s2, out :: outs)
   end.
+
+(* ---------- (E) the CIA cache (taurex/cache/ciaacache.py : __getitem__, add_cia, load_cia_from_path, set_cia_path) ----------
+   Differences from the opacity cache: nothing ever clears the dictionary; adding an object for a pair that is already
+   there is an error; a miss looks through the pickle .db files of the pair first and the HITRAN .cia files after them
+   and constructs the first one only (.db files take priority). *)
+Record cia_file := { cf_pair : nat; cf_hitran : bool; cf_id : nat }.
+Record cia_obj := { co_id : nat; co_pair : nat; co_file : nat }.
+Record cia_state := { ci_dict : list cia_obj; ci_files : list cia_file; ci_next : nat }.
+Inductive cia_op := CGet (pair : nat) | CSetPath (files : list cia_file) | CAdd (pair file : nat).
+Inductive cia_out := CServed (o : cia_obj) | CNotFound | CDone | CRaised.
+
+Definition cia_find (d : list cia_obj) (p : nat) : option cia_obj := find (fun o => Nat.eqb (co_pair o) p) d.
+Definition cia_construct (s : cia_state) (p file : nat) : cia_state :=
+  {| ci_dict := ci_dict s ++ [ {| co_id := ci_next s; co_pair := p; co_file := file |} ];
+     ci_files := ci_files s; ci_next := S (ci_next s) |}.
+Definition cia_files_of (fs : list cia_file) (p : nat) : list cia_file :=
+  filter (fun f => Nat.eqb (cf_pair f) p && negb (cf_hitran f)) fs
+  ++ filter (fun f => Nat.eqb (cf_pair f) p && cf_hitran f) fs.
+Definition cia_step (s : cia_state) (o : cia_op) : cia_state * cia_out :=
+  match o with
+  | CGet p =>
+      match cia_find (ci_dict s) p with
+      | Some ob => (s, CServed ob)
+      | None => match cia_files_of (ci_files s) p with
+                | f :: _ => let ob := {| co_id := ci_next s; co_pair := p; co_file := cf_id f |} in
+                            (cia_construct s p (cf_id f), CServed ob)
+                | [] => (s, CNotFound)
+                end
+      end
+  | CSetPath fs => ({| ci_dict := ci_dict s; ci_files := fs; ci_next := ci_next s |}, CDone)
+  | CAdd p file => match cia_find (ci_dict s) p with
+                   | Some _ => (s, CRaised)
+                   | None => (cia_construct s p file, CDone)
+                   end
+  end.
+Fixpoint cia_run (s : cia_state) (ops : list cia_op) : cia_state * list cia_out :=
+  match ops with
+  | [] => (s, [])
+  | o :: r => let '(s1, out) := cia_step s o in let '(s2, outs) := cia_run s1 r in (s2, out :: outs)
+  end.
